@@ -29,7 +29,10 @@ MaxOf(S) == IF S = {} THEN 0 ELSE CHOOSE x \in S : \A y \in S : x >= y
 Rows(b) == Catalogue[b].rows
 AllRows(bs) == UNION {{Rows(bs[i])[j] : j \in 1..Len(Rows(bs[i]))} : i \in 1..Len(bs)}
 PkgLen(bs) == MaxOf({PkgBytes[r.pkg] : r \in AllRows(bs)} \cup {0})
-SrcLen(bs, pf) == MaxOf({SrcBytes[r.src][pf] : r \in AllRows(bs)} \cup {0})
+(* pp is run without rebasing here, so no frame has a relative path and -rel-path ("rel") falls
+   back, frame by frame, to what the full format prints: the widths are the full format's.      *)
+WidthKey(pf) == IF pf = "rel" THEN "full" ELSE pf
+SrcLen(bs, pf) == MaxOf({SrcBytes[r.src][WidthKey(pf)] : r \in AllRows(bs)} \cup {0})
 
 Admitted(b, cfg) == CASE cfg.mode = "none"   -> TRUE
                       [] cfg.mode = "filter" -> b \notin cfg.P
@@ -67,5 +70,5 @@ BothIsMeet(bs, P, Q) ==
 (* a row's own text fits into its column: the padding is never negative *)
 Fits(bs, pf) == \A i \in 1..Len(bs) : \A j \in 1..Len(Rows(bs[i])) :
    /\ PkgRunes[Rows(bs[i])[j].pkg] <= PkgLen(bs)
-   /\ SrcRunes[Rows(bs[i])[j].src][pf] <= SrcLen(bs, pf)
+   /\ SrcRunes[Rows(bs[i])[j].src][WidthKey(pf)] <= SrcLen(bs, pf)
 =============================================================================
